@@ -1,4 +1,277 @@
+/-
+C30 — Retention deletes only expired segments of the right path.  Property theorems.
+
+`deleted E files confs` = files removed by one cleaner pass over the tree `files` (model of
+`Cleaner.doRun`).  All theorems hold for arbitrary oracles `E.rx` (regexp matching) and `E.cal`
+(calendar), arbitrary trees and configurations.
+-/
 import MtxVerif.Model.C30
+import MtxVerif.Props.C26
+
 namespace MtxVerif.C30
-theorem stub : True := trivial
+open MtxVerif.C26 (tokenize substPath decodeV decodedPath decodedStart Match Start Producible unanchoredExtra repeatedMismatch)
+open MtxVerif.C06 (isValidPathName findPathConf ConfEntry FindRes commonPath extMp4)
+
+/-! ### what is deleted, exactly -/
+
+theorem expired_iff (E : Env) (c : Conf) (name f : Bytes) :
+    expired E c name f = true ↔
+      ∃ m, decodeAt E (recPath E c.fmt name) f = some m ∧
+        E.cal (decodedStart m.caps) ≤ E.now - (c.deleteAfter : Int) := by
+  unfold expired
+  cases h : decodeAt E (recPath E c.fmt name) f with
+  | none => simp
+  | some m => simp
+
+theorem mem_deletedFor (E : Env) (files : List Bytes) (confs : List Conf) (name f : Bytes) :
+    f ∈ deletedFor E files confs name ↔
+      ∃ c, confOf E confs name = some c ∧ c.deleteAfter ≠ 0 ∧ isValidPathName name = none ∧
+        f ∈ files ∧ expired E c name f = true := by
+  unfold deletedFor
+  cases hc : confOf E confs name with
+  | none => simp
+  | some c =>
+    by_cases h0 : c.deleteAfter = 0
+    · simp [h0]
+    · cases hv : isValidPathName name with
+      | some e => simp [h0]
+      | none => simp [h0, List.mem_filter]
+
+/-- **Characterisation of one pass**: a file is deleted iff it is in the tree and, for some path name
+that `FindAllPathsWithSegments` reports, whose configuration (by `FindPathConf`) has a non-zero
+`recordDeleteAfter`, the file is recognised below that path's record directory with a start not later
+than `now − recordDeleteAfter`. -/
+theorem mem_deleted (E : Env) (files : List Bytes) (confs : List Conf) (f : Bytes) :
+    f ∈ deleted E files confs ↔
+      f ∈ files ∧ ∃ name ∈ allPaths E files confs, ∃ c, confOf E confs name = some c ∧
+        c.deleteAfter ≠ 0 ∧ isValidPathName name = none ∧
+        ∃ m, decodeAt E (recPath E c.fmt name) f = some m ∧
+          E.cal (decodedStart m.caps) ≤ E.now - (c.deleteAfter : Int) := by
+  unfold deleted
+  simp only [List.mem_filter, List.contains_iff_mem, List.mem_flatMap]
+  constructor
+  · rintro ⟨hf, name, hn, hd⟩
+    obtain ⟨c, h1, h2, h3, _, h5⟩ := (mem_deletedFor E files confs name f).mp hd
+    exact ⟨hf, name, hn, c, h1, h2, h3, (expired_iff E c name f).mp h5⟩
+  · rintro ⟨hf, name, hn, c, h1, h2, h3, h5⟩
+    exact ⟨hf, name, hn, (mem_deletedFor E files confs name f).mpr ⟨c, h1, h2, h3, hf, (expired_iff E c name f).mpr h5⟩⟩
+
+/-- only files of the tree are deleted (directories are never candidates). -/
+theorem deleted_sub_files (E : Env) (files : List Bytes) (confs : List Conf) :
+    ∀ f ∈ deleted E files confs, f ∈ files :=
+  fun f h => ((mem_deleted E files confs f).mp h).1
+
+/-- a configuration without retention never causes a deletion. -/
+theorem zero_retention_keeps (E : Env) (files : List Bytes) (confs : List Conf)
+    (h0 : ∀ c ∈ confs, c.deleteAfter = 0) : deleted E files confs = [] := by
+  rw [List.eq_nil_iff_forall_not_mem]
+  intro f hf
+  obtain ⟨_, name, _, c, hc, hne, _⟩ := (mem_deleted E files confs f).mp hf
+  apply hne
+  apply h0
+  unfold confOf at hc
+  split at hc
+  · exact List.mem_of_find?_eq_some hc
+  · cases hc
+
+/-! ### "deletes a regular file only if it is an expired segment of a path with retention" -/
+
+/-- what the statement requires of a deleted file. -/
+def ExpiredSegment (E : Env) (confs : List Conf) (f : Bytes) : Prop :=
+  ∃ name c m, confOf E confs name = some c ∧ c.deleteAfter ≠ 0 ∧ isValidPathName name = none ∧
+    inWalk (commonPath (recPath E c.fmt name)) f = true ∧
+    Producible (tokenize (recPath E c.fmt name)) f ∧
+    decodeV E.anch E.coh (tokenize (recPath E c.fmt name)) f = some m ∧
+    E.cal (decodedStart m.caps) ≤ E.now - (c.deleteAfter : Int)
+
+theorem decodeAt_some (E : Env) (rp f : Bytes) (m : Match) (h : decodeAt E rp f = some m) :
+    inWalk (commonPath rp) f = true ∧ decodeV E.anch E.coh (tokenize rp) f = some m := by
+  unfold decodeAt at h
+  split at h
+  · rename_i hw; exact ⟨hw, h⟩
+  · cases h
+
+/-- Full strength for the code as written (`anch = coh = false`).  **False**: finding F-C26 carries over
+(`deleted_only_segments_witness`). -/
+def deleted_only_segments_full : Prop :=
+  ∀ (E : Env) (files : List Bytes) (confs : List Conf), E.anch = false → E.coh = false →
+    ∀ f ∈ deleted E files confs, ExpiredSegment E confs f
+
+/-- With the fixed decoder the first half of the property holds for every tree and configuration. -/
+theorem deleted_only_segments_fixed (E : Env) (files : List Bytes) (confs : List Conf)
+    (ha : E.anch = true) (hc : E.coh = true) :
+    ∀ f ∈ deleted E files confs, ExpiredSegment E confs f := by
+  intro f hf
+  obtain ⟨_, name, _, c, h1, h2, h3, m, h4, h5⟩ := (mem_deleted E files confs f).mp hf
+  obtain ⟨hw, hd⟩ := decodeAt_some E _ f m h4
+  refine ⟨name, c, m, h1, h2, h3, hw, ?_, hd, h5⟩
+  rw [ha, hc] at hd
+  exact MtxVerif.C26.recognized_only_if_fixed _ f m hd
+
+/-- Code as written: the same, for trees in which no file falls into the two decidable finding classes
+of C26 with respect to any record path (no look-alike names). -/
+theorem deleted_only_segments_partial (E : Env) (files : List Bytes) (confs : List Conf)
+    (ha : E.anch = false) (hc : E.coh = false)
+    (hclean : ∀ f ∈ files, ∀ rp : Bytes, unanchoredExtra (tokenize rp) f = false ∧ repeatedMismatch (tokenize rp) f = false) :
+    ∀ f ∈ deleted E files confs, ExpiredSegment E confs f := by
+  intro f hf
+  obtain ⟨hfm, name, _, c, h1, h2, h3, m, h4, h5⟩ := (mem_deleted E files confs f).mp hf
+  obtain ⟨hw, hd⟩ := decodeAt_some E _ f m h4
+  refine ⟨name, c, m, h1, h2, h3, hw, ?_, hd, h5⟩
+  rw [ha, hc] at hd
+  have := hclean f hfm (recPath E c.fmt name)
+  exact MtxVerif.C26.recognized_only_if_partial _ f m hd this.1 this.2
+
+/-! ### "every such segment is deleted on the next pass" -/
+
+theorem fixed_conf_discovered (E : Env) (files : List Bytes) (confs : List Conf) (c : Conf)
+    (hc : c ∈ confs) (hr : c.isRegexp = false) (f : Bytes) (hf : f ∈ files) (m : Match)
+    (hd : decodeAt E (recPath E c.fmt c.key) f = some m) : c.key ∈ allPaths E files confs := by
+  unfold allPaths
+  rw [List.mem_flatMap]
+  refine ⟨c, hc, ?_⟩
+  have : hasSegments E files c = true := by
+    unfold hasSegments
+    rw [List.any_eq_true]
+    exact ⟨f, hf, by simp [hd]⟩
+  simp [hr, this]
+
+theorem regexp_conf_discovered (E : Env) (files : List Bytes) (confs : List Conf) (c : Conf)
+    (hc : c ∈ confs) (hr : c.isRegexp = true) (f : Bytes) (hf : f ∈ files) (m : Match)
+    (hd : decodeAt E (recPathRx E c.fmt) f = some m)
+    (hv : isValidPathName (decodedPath m.caps) = none) (hx : E.rx c.key (decodedPath m.caps) = true) :
+    decodedPath m.caps ∈ allPaths E files confs := by
+  unfold allPaths
+  rw [List.mem_flatMap]
+  refine ⟨c, hc, ?_⟩
+  simp only [hr, if_true]
+  unfold rxNames
+  rw [List.mem_filterMap]
+  exact ⟨f, hf, by simp [hd, hv, hx]⟩
+
+/-- **Second half, paths with their own (non-regexp) configuration**: every file of the tree that
+`FindSegments` recognises as a segment of that path with `start ≤ now − recordDeleteAfter` is deleted by
+the pass.  (`confOf … = some c`: the name resolves to its own conf — keys of a map are unique.) -/
+theorem expired_deleted_fixed_conf (E : Env) (files : List Bytes) (confs : List Conf) (c : Conf)
+    (hc : c ∈ confs) (hr : c.isRegexp = false) (hself : confOf E confs c.key = some c)
+    (h0 : c.deleteAfter ≠ 0) (hv : isValidPathName c.key = none)
+    (f : Bytes) (hf : f ∈ files) (hx : expired E c c.key f = true) : f ∈ deleted E files confs := by
+  obtain ⟨m, hd, hle⟩ := (expired_iff E c c.key f).mp hx
+  exact (mem_deleted E files confs f).mpr
+    ⟨hf, c.key, fixed_conf_discovered E files confs c hc hr f hf m hd, c, hself, h0, hv, m, hd, hle⟩
+
+/-- **Second half, paths served by a regexp configuration**: if the listing flow recognises the file as
+a segment of path `p` (this is what C26's round-trip theorem provides for the recorder's own files, with
+the fix, for formats with one `%path`), `p` resolves to a conf `c'` with retention, and `FindSegments`
+recognises the file as expired segment of `p`, the pass deletes it. -/
+theorem expired_deleted_regexp_conf (E : Env) (files : List Bytes) (confs : List Conf) (c c' : Conf)
+    (hc : c ∈ confs) (hr : c.isRegexp = true) (f : Bytes) (hf : f ∈ files) (m : Match)
+    (hd : decodeAt E (recPathRx E c.fmt) f = some m)
+    (hv : isValidPathName (decodedPath m.caps) = none) (hrx : E.rx c.key (decodedPath m.caps) = true)
+    (hconf : confOf E confs (decodedPath m.caps) = some c') (h0 : c'.deleteAfter ≠ 0)
+    (hx : expired E c' (decodedPath m.caps) f = true) : f ∈ deleted E files confs := by
+  obtain ⟨m', hd', hle⟩ := (expired_iff E c' _ f).mp hx
+  exact (mem_deleted E files confs f).mpr
+    ⟨hf, _, regexp_conf_discovered E files confs c hc hr f hf m hd hv hrx, c', hconf, h0, hv, m', hd', hle⟩
+
+/-! ### one pass reaches the fixpoint -/
+
+theorem allPaths_mono (E : Env) (files files' : List Bytes) (confs : List Conf)
+    (hsub : ∀ f ∈ files', f ∈ files) : ∀ n ∈ allPaths E files' confs, n ∈ allPaths E files confs := by
+  intro n hn
+  unfold allPaths at hn ⊢
+  rw [List.mem_flatMap] at hn ⊢
+  obtain ⟨c, hc, hm⟩ := hn
+  refine ⟨c, hc, ?_⟩
+  by_cases hr : c.isRegexp = true
+  · simp only [hr, if_true] at hm ⊢
+    unfold rxNames at hm ⊢
+    rw [List.mem_filterMap] at hm ⊢
+    obtain ⟨f, hf, he⟩ := hm
+    exact ⟨f, hsub f hf, he⟩
+  · simp only [hr, Bool.false_eq_true, if_false] at hm ⊢
+    by_cases hs : hasSegments E files' c = true
+    · simp only [hs, if_true] at hm
+      have : hasSegments E files c = true := by
+        unfold hasSegments at hs ⊢
+        rw [List.any_eq_true] at hs ⊢
+        obtain ⟨f, hf, he⟩ := hs
+        exact ⟨f, hsub f hf, he⟩
+      simpa [this] using hm
+    · simp [hs] at hm
+
+theorem remaining_sub (E : Env) (files : List Bytes) (confs : List Conf) :
+    ∀ f ∈ remaining E files confs, f ∈ files ∧ f ∉ deleted E files confs := by
+  intro f hf
+  unfold remaining at hf
+  simp only [List.mem_filter] at hf
+  refine ⟨hf.1, ?_⟩
+  intro hd
+  have : (deleted E files confs).contains f = true := by simpa using hd
+  rw [this] at hf
+  simp at hf
+
+/-- **A second pass (same instant, same configuration) deletes nothing**: everything that qualified was
+removed by the first one. -/
+theorem second_pass_deletes_nothing (E : Env) (files : List Bytes) (confs : List Conf) :
+    deleted E (remaining E files confs) confs = [] := by
+  rw [List.eq_nil_iff_forall_not_mem]
+  intro f hf
+  obtain ⟨hfr, name, hn, c, h1, h2, h3, m, h4, h5⟩ := (mem_deleted E _ confs f).mp hf
+  have hsub : ∀ g ∈ remaining E files confs, g ∈ files := fun g hg => (remaining_sub E files confs g hg).1
+  have hdel : f ∈ deleted E files confs :=
+    (mem_deleted E files confs f).mpr
+      ⟨hsub f hfr, name, allPaths_mono E files _ confs hsub name hn, c, h1, h2, h3, m, h4, h5⟩
+  exact (remaining_sub E files confs f hfr).2 hdel
+
+/-! ### witness for the code as written, and non-vacuity -/
+
+/-- a one-conf world: path `c`, record path `%path/%s`, retention 1 µs, cwd `/t`, clock at 10 µs, every
+decoded start = instant 0. -/
+def wEnv : Env := { cwd := asc ['/','t'], anch := false, coh := false, rx := fun _ _ => false, cal := fun _ => 0, now := 10 }
+def wConf : Conf := { key := asc ['c'], isRegexp := false, fmt := asc ['%','p','a','t','h','/','%','s'], deleteAfter := 1 }
+/-- `/t/c/1700000000.mp4~` — an editor backup of a segment -/
+def wFile : Bytes := asc ['/','t','/','c','/','1','7','0','0','0','0','0','0','0','0','.','m','p','4','~']
+/-- `/t/c/1700000000.mp4` -/
+def wSeg : Bytes := asc ['/','t','/','c','/','1','7','0','0','0','0','0','0','0','0','.','m','p','4']
+
+/-- the backup file is deleted by the code as written … -/
+theorem witness_deleted : wFile ∈ deleted wEnv [wFile] [wConf] := by decide
+
+/-- … although it is not a segment: **the first half of the property is false for the code as written**
+(class `unanchoredExtra`, same root cause as F-C26). -/
+theorem deleted_only_segments_witness : ¬ deleted_only_segments_full := by
+  intro h
+  obtain ⟨name, c, m, h1, _, _, _, hp, _, _⟩ := h wEnv [wFile] [wConf] rfl rfl wFile witness_deleted
+  -- the only name that resolves to a conf is `c`
+  have hname : name = asc ['c'] ∧ c = wConf := by
+    unfold confOf at h1
+    split at h1
+    · rename_i k hk
+      unfold findPathConf at hk
+      simp only [entries, List.map_cons, List.map_nil, List.find?_cons, List.find?_nil] at hk
+      by_cases hn : (wConf.key == name) = true
+      · have : name = asc ['c'] := by simpa [wConf] using (beq_iff_eq.mp hn).symm
+        subst this
+        simp [wConf] at h1
+        exact ⟨rfl, h1.2.symm⟩
+      · exfalso
+        simp only [hn] at hk
+        split at hk
+        · cases hk
+        · simp [List.filter, wConf, MtxVerif.C06.sortConfs] at hk
+    · cases h1
+  obtain ⟨rfl, rfl⟩ := hname
+  rw [← MtxVerif.C26.producibleB_iff] at hp
+  revert hp
+  decide
+
+/-- non-vacuity: with the fixed decoder the same world deletes the real segment and keeps the backup. -/
+example : deleted { wEnv with anch := true, coh := true } [wFile, wSeg] [wConf] = [wSeg] := by decide
+/-- retention 0 keeps everything; a start after `now − delay` keeps the file -/
+example : deleted wEnv [wSeg] [{ wConf with deleteAfter := 0 }] = [] := by decide
+example : deleted { wEnv with cal := fun _ => 10 } [wSeg] [wConf] = [] := by decide
+/-- boundary: `start = now − delay` is deleted (the code compares with `!end.Before(start)`) -/
+example : deleted { wEnv with cal := fun _ => 9 } [wSeg] [wConf] = [wSeg] := by decide
+
 end MtxVerif.C30
